@@ -347,6 +347,7 @@ func (h *hist) run(rng *rand.Rand) {
 		m    *am.State
 	}
 	var blocks []blk
+	var flushedRoot common.Hash
 
 	for b := 0; b < nblocks && h.fail == nil; b++ {
 		blockStart := p.M.Copy()
@@ -449,6 +450,7 @@ func (h *hist) run(rng *rand.Rand) {
 				return
 			}
 			h.counts["triedb.commit"]++
+			flushedRoot = root
 
 			h.verifyReopen("after-triedb-commit", root, p.M)
 			if h.env.Kind == sd.DBPath || h.env.Kind == sd.DBPathSmall {
@@ -471,6 +473,17 @@ func (h *hist) run(rng *rand.Rand) {
 		h.verifyReopen("older-root", o.root, o.m)
 		h.counts["reopen.older"]++
 	}
+	// Finally: persist the head state, drop the trie database and snapshot tree, open new ones
+	// over the same key-value store and read the state back (what a restarted node sees).
+	if h.fail == nil && len(blocks) > 0 && rng.Intn(2) == 0 {
+		last := blocks[len(blocks)-1]
+		if err := h.env.Reopen(last.root, last.root == flushedRoot); err != nil {
+			h.failf("reopen:fresh-triedb:open", "persist + reopen of %x failed: %v", last.root, err)
+		} else {
+			h.verifyReopen("fresh-triedb", last.root, last.m)
+			h.counts["reopen.fresh_triedb"]++
+		}
+	}
 	for k, v := range p.Stats {
 		h.counts[k] += v
 	}
@@ -481,7 +494,7 @@ func (h *hist) run(rng *rand.Rand) {
 }
 
 func run(r *vrt.Run) {
-	r.Rule("history i: rule set Forks[i mod 10], database kind (hash / hash+snapshot tree / path / path with 4 KiB write buffer) = (i/10) mod 4, prefetcher on/off (a third of those with witness collection), start state empty or random committed state; 2-6 (thorough 2-13) blocks of 1-4 transactions of 3-16 ops from the C13 call-pattern generator with 20% destruction/re-creation bias, a coinbase credit per block, optional explicit IntermediateRoot before Commit, a fresh state.New per block; in 1/3 of the blocks a Copy() is taken between or in the middle of a transaction (possibly with open frames), the copy runs its own suffix and is committed as a sibling block before or after the original; occasional triedb.Commit. non-trivial signature = (rule set, db kind, prefetcher, resurrection kinds seen, copy point kind)")
+	r.Rule("history i: rule set Forks[i mod 10], database kind (hash / hash+snapshot tree / path / path with 4 KiB write buffer) = (i/10) mod 4, prefetcher on/off (a third of those with witness collection), start state empty or random committed state; 2-6 (thorough 2-13) blocks of 1-4 transactions of 3-16 ops from the C13 call-pattern generator with 20% destruction/re-creation bias, a coinbase credit per block, optional explicit IntermediateRoot before Commit, a fresh state.New per block; in 1/3 of the blocks a Copy() is taken between or in the middle of a transaction (possibly with open frames), the copy runs its own suffix and is committed as a sibling block before or after the original; occasional triedb.Commit; in half of the histories the head state is finally persisted and re-read through a newly opened trie database (and regenerated snapshot tree) over the same key-value store. non-trivial signature = (rule set, db kind, prefetcher, resurrection kinds seen, copy point kind)")
 	n := r.N(600, 40000)
 	if r.Race() {
 		n = r.N(120, 4000)
@@ -561,6 +574,7 @@ func run(r *vrt.Run) {
 	r.Require("resurrect.same_block.had_storage", 10/div)
 	r.Require("resurrect.later_block", 30/div)
 	r.Require("triedb.commit", 50/div)
+	r.Require("reopen.fresh_triedb", 100/div)
 	for _, k := range sd.DBKindNames {
 		r.Require("hist.db."+k, 20/div)
 	}
